@@ -13,6 +13,7 @@ RULE = ("seeded random list containers of text items: 1..6 columns, spacing 0..4
         "(depth <= 3, forced widths, zero columns) compared with the model; non-trivial = >= 2 items placed or the layout refused")
 
 WORDS = ["a", "bb", "ccc", "dddd", "eeeee", "x" * 9, "hello world", "one two three four", ""]
+LEAN_MODULES = ["C13", "C13b"]
 
 
 def generate(rnd, tier):
